@@ -114,7 +114,9 @@ EXPORT errno_t _strcmp_s_chk(const char *dest, rsize_t dmax, const char *src,
             return RCNEGATE(ESUNTERM);
         }
     }
-    *resultp = *dest - *src;
+    /* equal within the first dmax characters, or the difference of the first
+       differing pair as unsigned char (as strcmp) */
+    *resultp = dmax ? (int)(unsigned char)*dest - (int)(unsigned char)*src : 0;
     return RCNEGATE(EOK);
 }
 #ifdef __KERNEL__
